@@ -324,7 +324,7 @@ def rule_netloc_split(ctx, rule):
 # ----------------------------------------------------------------------
 LRU_CELLS = [
     # scheme
-    "http://a.com/x", "https://a.com/x", "a.com/x", "ftp://a.com/x", "a.com/r?to=https://b.org/x", "a.com/r/http://b.org/",
+    "http://a.com/x", "https://a.com/x", "a.com/x", "//a.com/x", "//b.a.com", "ftp://a.com/x", "a.com/r?to=https://b.org/x", "a.com/r/http://b.org/",
     # userinfo: none / user / user:password / password only / empty password
     "http://u@a.com/", "http://u:p@a.com/", "http://:p@a.com/", "http://u:p:q@a.com/", "http://u:p@a.com/x@y?z@t",
     # host kinds (suffix_aware=False keeps the labels as written) and ports
@@ -337,8 +337,9 @@ LRU_CELLS = [
     # everything at once
     "https://u:p@b.a.co.uk:8080/a//b/?q=1&r#f",
 ]
+LRU_BOTH = ["http://b.a.co.uk/x", "http://a.co.uk:8080/"]
 LRU_SUFFIX_CELLS = [
-    "http://b.a.co.uk/x", "http://co.uk/", "http://a.co.uk:8080/", "http://A.B.Co.UK/", "http://a.x.ck/", "http://x.ck/", "http://a.www.ck/",
+    "http://b.a.co.uk/x", "http://co.uk/", "http://a.co.uk:8080/", "http://A.B.Co.UK/", "http://Stra\u00dfe.co.uk/", "http://a.x.ck/", "http://x.ck/", "http://a.www.ck/",
     "http://foo.notatld/x", "http://127.0.0.1/x", "http://[::1]:8080/x", "http://u:p@b.a.github.io/x?q#f",
 ]
 
@@ -348,7 +349,9 @@ def _ref_stems(url, suffix_aware=False):
     suffix-aware, the public suffix as ONE stem) p:segments q:query f:fragment u:user w:password"""
     from urllib.parse import urlsplit
     from .c08 import _psl_reference, MINI_RULES
-    if not re.match(r"^(?:[A-Za-z]+:)?//", url):
+    if url.startswith("//"):
+        url = "http:" + url  # a protocol-relative url is completed like one without a protocol
+    elif not re.match(r"^[A-Za-z]+://", url):
         url = "http://" + url
     sp = urlsplit(url)
     stems = []
@@ -423,7 +426,9 @@ def rule_model(ctx, rule, tier_cells=None):
     repo.overrides = {"ural.tld.split_suffix": Native(ref_split)}
     n = 0
     try:
-        for aware, cells in ((False, LRU_CELLS), (True, LRU_SUFFIX_CELLS)):
+        # the last two passes repeat urls already converted under the other setting: the answer depends on
+        # (url, suffix_aware) only, not on what was converted before
+        for aware, cells, again in ((False, LRU_CELLS, ""), (True, LRU_SUFFIX_CELLS, ""), (False, LRU_BOTH, "after-the-other-setting/"), (True, LRU_BOTH, "after-the-other-setting/")):
             for u in cells:
                 n += 1
                 exp = _ref_stems(u, aware)
@@ -433,7 +438,7 @@ def rule_model(ctx, rule, tier_cells=None):
                 except (Unknown, Raised) as e:
                     ctx.undecided(rule, "lru_stems(%r, suffix_aware=%s): %s" % (u, aware, e))
                     continue
-                ctx.ob(rule, "stems/%s%s" % ("suffix-aware/" if aware else "", u), list(got) == exp,
+                ctx.ob(rule, "stems/%s%s" % (again + ("suffix-aware/" if aware else ""), u), list(got) == exp,
                        "lru_stems(%r, suffix_aware=%s) gives %r, the documented format gives %r" % (u, aware, got, exp), site, witness=u, sample="%r -> %r" % (u, got))
                 try:
                     s = run_function(repo, f_to_lru, [u], {"suffix_aware": aware})
@@ -441,7 +446,7 @@ def rule_model(ctx, rule, tier_cells=None):
                     ctx.undecided(rule, "url_to_lru(%r): %s" % (u, e))
                     continue
                 exps = "|".join(exp) + "|"
-                ctx.ob(rule, "serialized/%s%s" % ("suffix-aware/" if aware else "", u), s == exps,
+                ctx.ob(rule, "serialized/%s%s" % (again + ("suffix-aware/" if aware else ""), u), s == exps,
                        "url_to_lru(%r, suffix_aware=%s) gives %r, expected %r" % (u, aware, s, exps), conv.site(f_to_lru.node), witness=u)
                 try:
                     back_stems = run_function(repo, f_unser, [exps])
@@ -449,7 +454,7 @@ def rule_model(ctx, rule, tier_cells=None):
                     ctx.undecided(rule, "unserialize_lru(%r): %s" % (exps, e))
                     back_stems = None
                 if back_stems is not None:
-                    ctx.ob(rule, "unserialize/%s%s" % ("suffix-aware/" if aware else "", u), list(back_stems) == exp,
+                    ctx.ob(rule, "unserialize/%s%s" % (again + ("suffix-aware/" if aware else ""), u), list(back_stems) == exp,
                            "unserialize_lru(%r) gives %r, expected %r" % (exps, back_stems, exp), ser.site(f_unser.node), witness=exps)
                 for form, arg in (("stems", exp), ("serialized", exps)):
                     try:
@@ -457,7 +462,7 @@ def rule_model(ctx, rule, tier_cells=None):
                     except (Unknown, Raised) as e:
                         ctx.undecided(rule, "lru_to_url(%r): %s" % (arg, e))
                         continue
-                    full = u if re.match(r"^(?:[A-Za-z]+:)?//", u) else "http://" + u
+                    full = "http:" + u if u.startswith("//") else (u if re.match(r"^[A-Za-z]+://", u) else "http://" + u)
                     want = urlsplit(full)
                     if aware:
                         # host lower-cased by the suffix splitter (the one documented loss)
@@ -466,7 +471,7 @@ def rule_model(ctx, rule, tier_cells=None):
                         have = urlsplit(back) if isinstance(back, str) else None
                     except ValueError:
                         have = None
-                    ctx.ob(rule, "roundtrip/%s/%s%s" % (form, "suffix-aware/" if aware else "", u), have is not None and tuple(have) == tuple(want),
+                    ctx.ob(rule, "roundtrip/%s/%s%s" % (form, again + ("suffix-aware/" if aware else ""), u), have is not None and tuple(have) == tuple(want),
                            "lru_to_url(%s of %r) gives %r, whose components %r differ from the url's %r" % (form, u, back, tuple(have) if have else None, tuple(want)),
                            conv.site(f_to_url.node), witness=u, sample="%r -> %r" % (arg, back))
     finally:
